@@ -3,14 +3,17 @@ package vf
 import (
 	"encoding/json"
 	"fmt"
+	"github.com/onflow/atree"
 )
 
 // bigtree: magnitudes the closures and trajectories do not reach — element counts beyond 65 535 (two-byte CBOR heads
 // and 16/32-bit count fields), trees of four levels, and a tree collapsing step by step back to a lone root:
-//   arr-tiny  : 70 000 three-byte scalars appended (count > 65 535; thousands of leaves)
-//   arr-lim   : 4 000 elements exactly at the inline limit (>= 4 levels at slab size 256)
-//   map-tiny  : 5 000 small entries (default digester; thousands of entries per slab at the large slab size)
-//   map-lim   : 2 500 entries with values at the inline limit (4 levels at slab size 256)
+//
+//	arr-tiny  : 70 000 three-byte scalars appended (count > 65 535; thousands of leaves)
+//	arr-lim   : 4 000 elements exactly at the inline limit (>= 4 levels at slab size 256)
+//	map-tiny  : 5 000 small entries (default digester; thousands of entries per slab at the large slab size)
+//	map-lim   : 2 500 entries with values at the inline limit (4 levels at slab size 256)
+//
 // Build with the model compared at checkpoints (incl. positional / keyed reads at first / last / boundary positions),
 // full oracle set at the top (content, verifiers, independent structure, commit, reopen, reachability), then
 // drain from the front, the back and the middle with checkpoints on the way down, to empty: only the root remains.
@@ -64,7 +67,7 @@ func bigTreeTask(raw json.RawMessage) TaskResult {
 	}
 	probe := func(n int) bool {
 		// positional / keyed reads at the first, the last and the power-of-two / CBOR-width boundary positions
-		for _, p := range []int{0, 1, 22, 23, 24, 254, 255, 256, 257, 65534, 65535, 65536, n/2, n - 2, n - 1} {
+		for _, p := range []int{0, 1, 22, 23, 24, 254, 255, 256, 257, 65534, 65535, 65536, n / 2, n - 2, n - 1} {
 			if p < 0 || p >= n {
 				continue
 			}
@@ -74,6 +77,25 @@ func bigTreeTask(raw json.RawMessage) TaskResult {
 			}
 			if !step(o) {
 				return false
+			}
+			if !isMap {
+				// the same position read as the start of a short read-only range (positions inside a deep tree
+				// are found by a different descent than Get's)
+				c := w.Conts[0]
+				e := p + 2
+				if e > n {
+					e = n
+				}
+				var got []atree.Value
+				res.Evals++
+				err := c.Arr.IterateReadOnlyRange(uint64(p), uint64(e), func(v atree.Value) (bool, error) { got = append(got, v); return true, nil })
+				if err == nil {
+					err = w.cmpSeq(fmt.Sprintf("IterateReadOnlyRange(%d,%d)", p, e), got, c.Elems[p:e])
+				}
+				if err != nil {
+					res.Viols = append(res.Viols, fmt.Sprintf("%s: %d elements: %v", what, n, err))
+					return false
+				}
 			}
 		}
 		return true
